@@ -61,8 +61,19 @@ Fixpoint set_entry (k : string) (v : anode) (es : aview) : aview :=
   | (k', x) :: t => if String.eqb k' k then (k, v) :: t else (k', x) :: set_entry k v t
   end.
 
+Fixpoint find_entry (k : string) (es : list (string * anode)) : option anode :=
+  match es with
+  | [] => None
+  | (k', x) :: t => if String.eqb k' k then Some x else find_entry k t
+  end.
+
+(* RNode.VisitFields: the field NAMES in order, and for each name rn.Field(name), which is the FIRST entry of
+   that name: of duplicated keys of the source only the first value is ever copied *)
+Definition first_value (src : aview) (kv : string * anode) : anode :=
+  match find_entry (fst kv) src with Some v => v | None => snd kv end.
+
 Definition set_entries (src acc : aview) : aview :=
-  fold_left (fun a kv => set_entry (fst kv) (snd kv) a) src acc.
+  fold_left (fun a kv => set_entry (fst kv) (first_value src kv) a) src acc.
 
 (* FieldClearer{Name: "<<"}: the first entry of that name goes *)
 Fixpoint remove_first_key (k : string) (es : aview) : aview :=
@@ -75,12 +86,6 @@ Fixpoint count_key (k : string) (es : list (string * anode)) : nat :=
   match es with
   | [] => O
   | (k', _) :: t => if String.eqb k' k then S (count_key k t) else count_key k t
-  end.
-
-Fixpoint find_entry (k : string) (es : list (string * anode)) : option anode :=
-  match es with
-  | [] => None
-  | (k', x) :: t => if String.eqb k' k then Some x else find_entry k t
   end.
 
 (* mergeAll: a copy of the mapping (merge key removed), then every source in order, then the mapping's own
@@ -198,6 +203,88 @@ Fixpoint merge_free (n : anode) : bool :=
                     | (k, x) :: t => negb (String.eqb k merge_key) && merge_free x && go t
                     end) es
   end.
+
+(* Domain of the merge-key law (AnchorProofs.deanchor_merge_free_flat): no mapping that can be the SOURCE of a
+   merge has a merge key itself — no anchored mapping, and no mapping written in place as a merge value or
+   as an item of a merge list.  [lax] follows de_anchor's flag.  The usual "base: &b {...} /
+   derived: {<<: *b, ...}" documents are inside; chained merges (AnchorProofs.chained_merge) are outside. *)
+Fixpoint flat_merges (lax : bool) (n : anode) : bool :=
+  match n with
+  | AScalar _ _ _ _ => true
+  | AAlias _ => true
+  | ASeq _ es => (fix go (l : list anode) : bool :=
+                    match l with [] => true | x :: t => flat_merges lax x && go t end) es
+  | AMap a es =>
+      (if lax || negb (String.eqb a "") then Nat.eqb (count_key merge_key es) 0 else true) &&
+      (fix go (l : list (string * anode)) : bool :=
+         match l with
+         | [] => true
+         | (k, x) :: t => flat_merges (negb lax && String.eqb k merge_key) x && go t
+         end) es
+  end.
+
+(* ---- the expansion: the reference reading of anchors and aliases (YAML 1.2, 3.2.2.2 / 7.1) ----
+   every alias stands for the node that most recently carried that anchor, anchors are dropped; an alias to a
+   node that contains it has no finite expansion.  No merge-key processing: the law "DeAnchor's output equals
+   the expansion" is stated for documents without merge keys (AnchorProofs.deanchor_equals_expansion). *)
+Definition xenv := list (string * option anode).          (* None: the node is still open *)
+
+Fixpoint xlookup (a : string) (env : xenv) : option (option anode) :=
+  match env with
+  | [] => None
+  | (k, b) :: t => if String.eqb k a then Some b else xlookup a t
+  end.
+
+Fixpoint xclose (a : string) (e : anode) (env : xenv) : xenv :=
+  match env with
+  | [] => []
+  | (k, None) :: t => if String.eqb k a then (k, Some e) :: t else (k, None) :: xclose a e t
+  | b :: t => b :: xclose a e t
+  end.
+
+Fixpoint expand (env : xenv) (n : anode) {struct n} : option (anode * xenv) :=
+  match n with
+  | AScalar a t s v =>
+      let e := AScalar "" t s v in
+      Some (e, if String.eqb a "" then env else (a, Some e) :: env)
+  | AAlias x =>
+      match xlookup x env with
+      | Some (Some e) => Some (e, env)
+      | _ => None
+      end
+  | ASeq a es =>
+      match (fix go (l : list anode) (env : xenv) : option (list anode * xenv) :=
+               match l with
+               | [] => Some ([], env)
+               | x :: t =>
+                   match expand env x with
+                   | Some (e, env1) =>
+                       match go t env1 with Some (r, env2) => Some (e :: r, env2) | None => None end
+                   | None => None
+                   end
+               end) es (if String.eqb a "" then env else (a, None) :: env) with
+      | Some (xs, env1) =>
+          let e := ASeq "" xs in Some (e, if String.eqb a "" then env1 else xclose a e env1)
+      | None => None
+      end
+  | AMap a es =>
+      match (fix go (l : list (string * anode)) (env : xenv) : option (list (string * anode) * xenv) :=
+               match l with
+               | [] => Some ([], env)
+               | (k, x) :: t =>
+                   match expand env x with
+                   | Some (e, env1) =>
+                       match go t env1 with Some (r, env2) => Some ((k, e) :: r, env2) | None => None end
+                   | None => None
+                   end
+               end) es (if String.eqb a "" then env else (a, None) :: env) with
+      | Some (view, env1) =>
+          let e := AMap "" view in Some (e, if String.eqb a "" then env1 else xclose a e env1)
+      | None => None
+      end
+  end.
+
+Definition expand_doc (n : anode) : option anode := option_map fst (expand [] n).
 
 (* an alias-free document as a Yaml/Node.v node *)
 Fixpoint to_node (n : anode) : option node :=
